@@ -2073,6 +2073,11 @@ func contractHistory(c *Ctx, id int) {
 				am = big.NewInt(0)
 			case 7:
 				exp = 1<<62 + int64(c.R.Intn(1000))
+			case 8: // digest length bounds: empty, twice the size, 255 / 256 / 257, the right size modulo 2^8
+				n := []int{0, 1, 64, 255, 256, 257, 256 + 32, 512 + 32, 256 + 31}[c.R.Intn(9)]
+				lock = make([]byte, n)
+				c.R.Read(lock)
+				c.Hit("htlc-create-digest-length-boundary")
 			}
 			if b := call(from, types.HtlcContract, tok, am, "Create", definition.ABIHtlc.PackMethodPanic(definition.CreateHtlcMethodName, hashLocked, exp, ty, keyMax, lock)); b != nil {
 				r.preimages[b.Hash] = pre
